@@ -281,3 +281,90 @@ class QueueRecorder:
             self.depth -= 1
             self._ev("dl_next", -1, self.project(wp))
             yield wp
+
+
+# ---------------------------------------------------------------------------------------
+# EquivalenceDB
+
+_EQ_REG: Dict[int, "EquivRecorder"] = {}
+_EQ_ORIG: Dict[str, Callable] = {}
+_EQ_METHODS = ("add_two_way_edge", "add_one_way_edge", "set_verified", "connect_cycles")
+_EQ_OPNAME = {"add_two_way_edge": "two", "add_one_way_edge": "one", "set_verified": "mark", "connect_cycles": "cc"}
+
+
+def _install_equiv_patches():
+    if _EQ_ORIG:
+        return
+    from comb_spec_searcher.equiv_db import EquivalenceDB
+
+    def mk(name):
+        orig = getattr(EquivalenceDB, name)
+        _EQ_ORIG[name] = orig
+
+        def wrapper(self, *a, **k):
+            rec = _EQ_REG.get(id(self))
+            if rec is None or rec.db is not self:
+                return orig(self, *a, **k)
+            return rec._call(name, a, k)
+
+        wrapper.__name__ = name
+        return wrapper
+
+    for name in _EQ_METHODS:
+        setattr(EquivalenceDB, name, mk(name))
+
+
+def eq_event(op, a=0, b=0, labels=(), eq=(), ver=(), path=()):
+    return {"op": op, "a": int(a), "b": int(b), "labels": list(labels), "eq": [list(r) for r in eq],
+            "ver": list(ver), "path": list(path)}
+
+
+class EquivRecorder:
+    """Records edge insertions, marks and cycle detections on one EquivalenceDB (Trace_EquivDB format)."""
+
+    def __init__(self, db, sink: Optional[List[dict]] = None):
+        _install_equiv_patches()
+        self.db = db
+        self.events: List[dict] = [] if sink is None else sink
+        self.depth = 0
+        _EQ_REG[id(db)] = self
+
+    def close(self):
+        _EQ_REG.pop(id(self.db), None)
+
+    def _call(self, name, a, k):
+        orig = _EQ_ORIG[name]
+        if self.depth > 0:
+            return orig(self.db, *a, **k)
+        self.depth += 1
+        try:
+            return orig(self.db, *a, **k)
+        finally:
+            self.depth -= 1
+            args = list(a) + list(k.values())
+            self.events.append(eq_event(_EQ_OPNAME[name], *(args[:2])))
+
+    def observe(self, labels=None, paths=True, max_paths=40):
+        """Ask the database about every pair of `labels` (default: every label it knows)."""
+        db = self.db
+        self.depth += 1
+        try:
+            if labels is None:
+                labels = sorted(set(db.parents) | set(db.vertices))
+            labels = list(labels)
+            eq = [[1 if db.equivalent(x, y) else 0 for y in labels] for x in labels]
+            ver = [1 if db.is_verified(x) else 0 for x in labels]
+            self.events.append(eq_event("observe", labels=labels, eq=eq, ver=ver))
+            n = 0
+            if paths:
+                for i, x in enumerate(labels):
+                    for j, y in enumerate(labels):
+                        if i != j and eq[i][j] and n < max_paths:
+                            n += 1
+                            try:
+                                p = list(db.find_path(x, y))
+                            except BaseException as e:  # recorded as an (invalid) empty path
+                                p = []
+                            self.events.append(eq_event("path", x, y, path=p))
+        finally:
+            self.depth -= 1
